@@ -131,3 +131,32 @@ Theorem C15_by_y_f64 :
   ltY NB64 (py (e_point (getE st a))) (py (e_point (getE st b))) = true ->
   cmp_events st a b = Gt /\ cmp_events st b a = Lt.
 Proof. exact (@cmp_events_by_y NB64 (NB_laws 53 1024)). Qed.
+
+(** transitivity of the event order, exact instance ([Lt] = processed later): (i) whenever one
+    of the two steps is decided by the key (x, y, right-before-left); (ii) for three left
+    events at one point whose partners are later points (C13: left event first), pairwise not
+    collinear with the point.  Not covered: chains through collinear partners (the fallback by
+    operand) and right events in the angular case (symmetric, not written out). *)
+From GB Require Import EventOrderTrans.
+Theorem C15_transitive_through_key :
+  forall (st : store NQ) (a b c : eid) (xa ya xb yb xc yc : Q),
+  has_pt st a xa ya -> has_pt st b xb yb -> has_pt st c xc yc ->
+  cmp_events st a b = Lt -> cmp_events st b c = Lt ->
+  (kcmp xa ya (e_left (getE st a)) xb yb (e_left (getE st b)) <> Eq
+   \/ kcmp xb yb (e_left (getE st b)) xc yc (e_left (getE st c)) <> Eq) ->
+  cmp_events st a c = Lt.
+Proof. exact cmp_events_trans_key. Qed.
+
+Theorem C15_transitive_angular :
+  forall (st : store NQ) (a b c oa ob oc : eid) (xa ya xb yb xc yc oax oay obx oby ocx ocy : Q),
+  e_point (getE st a) = mkPt NQ (QF xa) (QF ya) -> e_point (getE st b) = mkPt NQ (QF xb) (QF yb) ->
+  e_point (getE st c) = mkPt NQ (QF xc) (QF yc) ->
+  xa == xb -> ya == yb -> xb == xc -> yb == yc ->
+  e_other (getE st a) = Some oa -> e_other (getE st b) = Some ob -> e_other (getE st c) = Some oc ->
+  e_point (getE st oa) = mkPt NQ (QF oax) (QF oay) -> e_point (getE st ob) = mkPt NQ (QF obx) (QF oby) ->
+  e_point (getE st oc) = mkPt NQ (QF ocx) (QF ocy) ->
+  e_left (getE st a) = true -> e_left (getE st b) = true -> e_left (getE st c) = true ->
+  later xa ya oax oay -> later xb yb obx oby -> later xc yc ocx ocy ->
+  ~ det xa ya oax oay obx oby == 0 -> ~ det xb yb obx oby ocx ocy == 0 ->
+  cmp_events st a b = Lt -> cmp_events st b c = Lt -> cmp_events st a c = Lt.
+Proof. exact cmp_events_trans_angular. Qed.
